@@ -298,3 +298,49 @@ func VK11dCompaction() {
 	rc, _, ferr := s2.Fetch(ctx, br)
 	vrt.Assert(ferr == nil && vEq(vReadAll(rc), p), "the newest blob is served after the re-scan")
 }
+
+// K11e: recoverability across a failed upload. The k-th call into the ciphertext store, the meta
+// store or the local index fails during a receive; the client retries and is acknowledged; the
+// local index is then lost. Every acknowledged blob must be served from the wrapped stores alone.
+func VK11eRecoverAfterFault() {
+	vInstall()
+	blobs, meta, index := &vmodel.Store{}, &vmodel.Store{}, &vmodel.KV{}
+	s := vNew(blobs, meta, index)
+	ctx := context.Background()
+	pa, pb := vrt.Bytes(1), vrt.Bytes(2)
+	ra, rb := vRefOf(pa), vRefOf(pb)
+	haveA := vrt.Bool()
+	if haveA {
+		_, err := s.ReceiveBlob(ctx, ra, bytes.NewReader(pa))
+		vrt.Assert(err == nil, "receive")
+	}
+	k := vrt.Choice(7) // the k-th lower-layer call of the upload fails; 6 = none
+	c, on := 0, true
+	fault := func(op string) bool {
+		if !on {
+			return false
+		}
+		c++
+		return c-1 == k
+	}
+	blobs.Fault, meta.Fault, index.Fault = fault, fault, fault
+	_, err := s.ReceiveBlob(ctx, rb, bytes.NewReader(pb))
+	on = false
+	vrt.Assert(c <= 6, "the fault positions cover every lower-layer call of an upload")
+	if err != nil {
+		vrt.Cover("upload failed")
+		_, err = s.ReceiveBlob(ctx, rb, bytes.NewReader(pb))
+		vrt.Assert(err == nil, "the retry of a failed upload succeeds")
+	}
+	// restart with the local meta index lost
+	index2 := &vmodel.KV{}
+	s2 := vNew(blobs, meta, index2)
+	rerr := s2.readAllMetaBlobs()
+	vrt.Assert(rerr == nil, "meta re-scan succeeds")
+	rc, size, ferr := s2.Fetch(ctx, rb)
+	vrt.Assert(ferr == nil && int(size) == len(pb) && vEq(vReadAll(rc), pb), "an acknowledged upload (after a failed attempt) is served after the loss of the local index")
+	if haveA {
+		rc, size, ferr := s2.Fetch(ctx, ra)
+		vrt.Assert(ferr == nil && int(size) == len(pa) && vEq(vReadAll(rc), pa), "an earlier blob is served after the loss of the local index")
+	}
+}
